@@ -701,7 +701,9 @@ class SlidingWindow:
 	
 	def update(self, packet):
 		packets = []
-		if packet.packet_id < self.next or packet.packet_id in self.packets:
+		# Sequence ids are 16 bits wide and wrap around, so they must be compared
+		# modulo 0x10000: ids in the half window behind 'next' are duplicates.
+		if (packet.packet_id - self.next) & 0xFFFF >= 0x8000 or packet.packet_id in self.packets:
 			logger.debug("Received duplicate packet: %s", packet)
 		else:
 			self.packets[packet.packet_id] = packet
@@ -1111,7 +1113,7 @@ class PRUDPClient:
 			extra_ids = struct.unpack("<%iH" %(len(packet.payload) // 2), packet.payload)
 		
 		for key in list(self.ack_events):
-			if key[0] == TYPE_DATA and key[1] == substream and key[2] <= base_id:
+			if key[0] == TYPE_DATA and key[1] == substream and (base_id - key[2]) & 0xFFFF < 0x8000:
 				self.scheduler.remove(self.ack_events.pop(key))
 		
 		for packet_id in extra_ids:
